@@ -854,6 +854,8 @@ void exec_op(World &W, const Json &op, int index) {
 }
 
 Json run_plan(const Json &plan, bool verbose, std::vector<std::string> *log) {
+    extern u64 g_tsan_reports;
+    u64 tsan0 = g_tsan_reports;
     World W;
     W.announce = announce_ops;
     if (verbose) W.trace.log = log;
@@ -873,6 +875,7 @@ Json run_plan(const Json &plan, bool verbose, std::vector<std::string> *log) {
     Json f = Json::obj(); for (auto &kv : W.faults) f.set(kv.first, (i64) kv.second); r.set("faults", f);
     Json p = Json::obj(); for (auto &kv : W.probes) p.set(kv.first, (i64) kv.second); r.set("probes", p);
     r.set("syslog", (i64) g_syslog_calls);
+    r.set("tsan", (i64) (g_tsan_reports - tsan0));
     if (plan.has("threads")) {
         r.set("yields", (i64) W.sched_yields).set("switches", (i64) W.sched_switches);
         r.set("decisions", Json::ints(W.sched_decisions));
